@@ -431,9 +431,15 @@ def run(F, R, tier):
                 r4.require(not ok, (fn, "ok-without-delete"), "StrongholdStorage::delete returns Ok without having deleted anything — path: %s" % q.describe()[:200])
         r4.site("StrongholdStorage::delete rows: %s" % sorted(rows))
         r4.require({"deleted-ok", "absent"} <= rows or not tabd.paths, (fn, "rows"), "StrongholdStorage::delete does not show the rows (record exists → deleted) and (record absent → KeyNotFound): %s" % sorted(rows))
-    r4.floor(9)
 
     # ------------------------------------------------------------------ R5 lock discipline of the mem stores (type level)
+    # the map model above takes two keys to be the same exactly when they are the same value: the stores' key types compare and hash by
+    # their whole content (derived, or hand-written over exactly their fields) — a looser equality makes a never-issued id hit a stored key
+    import c17 as _c17
+    for kt_ in ("identity_storage::key_storage::key_id::KeyId", "identity_storage::key_id_storage::method_digest::MethodDigest"):
+        if r4.anchor(F.adt(kt_), kt_):
+            _c17.check_identity_traits(F, r4, kt_, traits=("core::cmp::PartialEq", "core::cmp::Eq", "core::hash::Hash"))
+    r4.floor(15)
     r5 = R.rule("C15-R5", "T13", "the mem stores keep their maps behind an async RwLock and no method hands out the map or a guard")
     for ty, field in ((KIM, "key_id_store"), (JMS, "jwk_store")):
         fs = F.adt_fields(ty)
